@@ -3,6 +3,7 @@ module verif/harness
 go 1.26
 
 require (
+	github.com/fxamacker/cbor/v2 v2.8.0
 	github.com/gofiber/fiber/v3 v3.0.0
 	github.com/gofiber/utils/v2 v2.0.0-beta.8
 	github.com/tinylib/msgp v1.2.5
@@ -11,7 +12,6 @@ require (
 
 require (
 	github.com/andybalholm/brotli v1.1.1 // indirect
-	github.com/fxamacker/cbor/v2 v2.8.0 // indirect
 	github.com/gofiber/schema v1.3.0 // indirect
 	github.com/google/uuid v1.6.0 // indirect
 	github.com/klauspost/compress v1.18.0 // indirect
